@@ -76,8 +76,37 @@ Record obs := {
   o_val : option value;          (* value carried by a create/update request *)
   o_res : ores;                  (* how the datastore answered (XNone: crashed before the access) *)
   o_done : list result;          (* results of the operations this client completed during this step *)
-  o_snap : option dump           (* IPAM keys of the datastore after the access, when the access changed them *)
+  o_snap : option (list (key * option value))
+                                 (* when the access changed the datastore: the difference between the IPAM contents of
+                                    the REAL datastore before and after the access (key, new value or None = removed),
+                                    computed by the driver from two dumps of the store, not from the request *)
 }.
+
+(* the datastore contents after a change; same canonical order as Cas.insert / Cas.remove *)
+Fixpoint dput (d : dump) (k : key) (v : value) : dump :=
+  match d with
+  | [] => [(k, v)]
+  | (k', v') :: t => if key_eqb k' k then (k, v) :: t
+                     else if key_ltb k k' then (k, v) :: (k', v') :: t
+                     else (k', v') :: dput t k v
+  end.
+Definition ddel (d : dump) (k : key) : dump := filter (fun p => negb (key_eqb (fst p) k)) d.
+Definition dapply (d : dump) (ch : list (key * option value)) : dump :=
+  fold_left (fun d kv => match snd kv with Some v => dput d (fst kv) v | None => ddel d (fst kv) end) ch d.
+
+(* short, fully typed constructors for the generated case terms (cheap to elaborate) *)
+Definition nR : list result := [].
+Definition noV : option value := None.
+Definition noC : option (list (key * option value)) := None.
+Definition oG (c : nat) (f : fault) (k : key) (r : ores) (d : list result) : obs :=
+  Build_obs c f OGet (Some k) None None r d None.
+Definition oL (c : nat) (f : fault) (l : lopt) (r : ores) (d : list result) : obs :=
+  Build_obs c f OList None (Some l) None r d None.
+Definition oW (c : nat) (f : fault) (kd : okind) (k : key) (v : option value) (r : ores) (d : list result)
+              (ch : option (list (key * option value))) : obs :=
+  Build_obs c f kd (Some k) None v r d ch.
+Definition sV (v : value) : option value := Some v.
+Definition ch1 (k : key) (v : option value) : option (list (key * option value)) := Some [(k, v)].
 
 Record case := {
   c_cfg : config;
@@ -114,7 +143,7 @@ Definition model_step (cf : config) (fx : bool) (s : store) (cls : list client) 
                     | Some (_, rs) => ores_eqb (o_res o) (res_class rs)
                     end in
       let snap_ok := match o_snap o with
-                     | Some d => dump_eqb (store_dump s') d
+                     | Some ch => dump_eqb (store_dump s') (dapply (store_dump s) ch)
                      | None => dump_eqb (store_dump s') (store_dump s)
                      end in
       if res_ok && snap_ok && list_eqb result_eqb done (o_done o)
@@ -259,7 +288,7 @@ Definition oracle_step (c : case) (st : ostate) (o : obs) : option ostate :=
     match nth_error ops idx with
     | None => None
     | Some opn =>
-      let d' := match o_snap o with Some d' => d' | None => os_store st end in
+      let d' := match o_snap o with Some ch => dapply (os_store st) ch | None => os_store st end in
       let w_ok := match o_snap o with
                   | Some _ => state_ok (nodupN (map fst (c_clients c))) d' && change_ok cf host opn (os_store st) d'
                   | None => true
